@@ -3,6 +3,7 @@ import Pyunicorn.Lemmas.LineDistSeq
 import Pyunicorn.Lemmas.LineDistResample
 import Pyunicorn.Lemmas.LineDistRound
 import Pyunicorn.Lemmas.LineDistEntropy
+import Pyunicorn.Lemmas.LineDistRnd64
 /-!
 # C08 — RQA line statistics are exact run-length counts of the matrix
 
@@ -936,6 +937,120 @@ example : (xOps rndCeil).lt (StructC08.metric_supremum (xOps rndCeil) 0 1 1
       (fun a _ => .fin (if a = 0 then 0 else 1/2))) (.fin 1) = true := by decide +kernel
 
 end Doubles
+
+/-! ## Round 5 — the binary64 rounding the driver executes: no hypothesis on the rounding is left
+
+`rnd64` (`Model/LineDistFloat.lean`) is round-to-nearest-even on 53 bits with gradual underflow.
+Round 4's theorems were stated for "every rounding with `rnd 0 = 0`" / "every *monotone* rounding
+that fixes the threshold" and the monotonicity of the rounding actually executed was an assumption.
+Here it is a theorem, and the inclusion "recurrent in doubles ⇒ recurrent exactly" is lifted from
+finite samples to every embedding (NaN, infinities) and to the stored matrix. -/
+section Binary64
+open Pyunicorn.Generated
+
+/-- **binary64 rounding is monotone** (across exponent boundaries and into the subnormal range) -/
+theorem rnd64_monotone : MonoRnd rnd64 := rnd64_mono
+
+/-- it fixes every non-negative double: normal, subnormal, zero (`m · 2^e`, `|m| < 2^53`,
+`e ≥ -1074`), and its value is always on the double grid (a multiple of `2^-1074`) -/
+theorem rnd64_fixes_doubles (f : Rat) (hf : IsF64 f) (h0 : 0 ≤ f) : rnd64 f = f := rnd64_fix f hf h0
+theorem rnd64_value_on_grid (x : Rat) : OnGrid (rnd64 x) := rnd64_onGrid x
+
+/-- **gradual underflow is invisible to the kernels**: on the difference `|a - b|` of any two
+doubles the rounding with the exponent clamp is C09's unclamped `rn53` (the model of rounds 3–4);
+a difference of doubles below `2^-1022` is exact. -/
+theorem rnd64_eq_rn53_on_differences (a b : Rat) (ha : IsF64 a) (hb : IsF64 b) :
+    rnd64 (adiff a b) = Similarity.rn53 (adiff a b) :=
+  rnd64_eq_rn53_grid _ (isF64_sub_grid a b ha hb)
+
+/-- … and in the normal range (`2^-1022 ≤ x`) the two roundings are the same function of any
+rational -/
+theorem rnd64_eq_rn53_normal_range (x : Rat) (h : -1022 ≤ Visibility.lg x) :
+    rnd64 x = Similarity.rn53 x := rnd64_eq_rn53_normal x (Or.inr h)
+
+/-- **binary64 never invents a recurrence** — the predicate, any samples: for every embedding whose
+samples are finite, `±inf` or NaN and every threshold that is a double (negative ones included),
+`inf` or NaN: a pair recurrent with the differences rounded to binary64 is recurrent with exact
+differences.  (`round_subset` of round 4 without its two hypotheses and without "finite".) -/
+theorem binary64_subset_exact (I j dim : Int) (E : Int → Int → X) (eps : X)
+    (heps : ∀ t, eps = .fin t → IsF64 t)
+    (h : (xOps rnd64).lt (StructC08.metric_supremum (xOps rnd64) I j dim E) eps = true) :
+    (xOps id).lt (StructC08.metric_supremum (xOps id) I j dim E) eps = true :=
+  lt_of_accRel rnd64 _ _ (metric_accRel rnd64 rnd64_mono I j dim E) eps (fixedEps_rnd64 eps heps) h
+
+/-- with `threshold = inf` (or NaN) rounding changes nothing at all -/
+theorem binary64_inf_threshold_exact (I j dim : Int) (E : Int → Int → X) (eps : X)
+    (heps : ∀ t, eps ≠ .fin t) :
+    (xOps rnd64).lt (StructC08.metric_supremum (xOps rnd64) I j dim E) eps
+      = (xOps id).lt (StructC08.metric_supremum (xOps id) I j dim E) eps :=
+  lt_inf_of_accRel rnd64 _ _ (metric_accRel rnd64 rnd64_mono I j dim E) eps heps
+
+/-- **the matrix stored by `set_fixed_threshold` in doubles is contained in the exact one**, cell
+by cell, `missing_values` on or off, every embedding, every double / `inf` / NaN threshold -/
+theorem binary64_matrix_subset_exact (emb : List (List X)) (eps : X)
+    (heps : ∀ t, eps = .fin t → IsF64 t) (dim : Nat) (mv : Bool) (I j : Nat)
+    (h : Mat.at (fixedThresholdX rnd64 emb eps dim mv) I j = true) :
+    Mat.at (fixedThresholdX id emb eps dim mv) I j = true :=
+  fixedThresholdX_subset rnd64 rnd64_mono emb eps (fixedEps_rnd64 eps heps) dim mv I j h
+
+/-- where every coordinate difference is a double (float32-born samples at most 29 binades apart,
+the dyadic data of the correspondence) binary64 decides every pair exactly -/
+theorem binary64_exact_of_representable (I j dim : Int) (e : Int → Int → Rat)
+    (hex : ∀ l : Nat, l < dim.toNat → IsF64 (adiff (e I l) (e j l))) (t : Rat) :
+    (xOps rnd64).lt (StructC08.metric_supremum (xOps rnd64) I j dim (fun a b => .fin (e a b)))
+        (.fin t)
+      = (xOps id).lt (StructC08.metric_supremum (xOps id) I j dim (fun a b => .fin (e a b)))
+          (.fin t) := by
+  apply round_exact
+  intro l hl
+  apply rnd64_fix _ (hex l hl)
+  unfold adiff
+  split <;> linarith
+
+/-- **sequential = matrix mode in binary64**, no hypothesis: the four generated sequential kernels
+at the rounding the driver executes are the generated matrix kernels on the stored matrix, hence
+run-length counts of it -/
+theorem seq64_vertline_eq_matrix (emb : List (List X)) (eps : X) (dim : Nat) :
+    StructC08._vertline_dist_sequential (xOps rnd64) emb.length (List.replicate emb.length 0)
+        (accX emb) eps dim
+      = StructC08._vertline_dist emb.length (List.replicate emb.length 0)
+          (accR (fixedThresholdX rnd64 emb eps dim false)) :=
+  seqX_vertline_eq_matrix rnd64 rnd64_zero emb eps dim
+
+theorem seq64_diagline_eq_matrix (emb : List (List X)) (eps : X) (dim : Nat) :
+    StructC08._diagline_dist_sequential (xOps rnd64) emb.length (List.replicate emb.length 0)
+        (accX emb) eps dim
+      = StructC08._diagline_dist emb.length (List.replicate emb.length 0)
+          (accR (fixedThresholdX rnd64 emb eps dim false)) :=
+  seqX_diagline_eq_matrix rnd64 rnd64_zero emb eps dim
+
+theorem seq64_vertline_runs (emb : List (List X)) (eps : X) (dim : Nat) :
+    StructC08._vertline_dist_sequential (xOps rnd64) emb.length (List.replicate emb.length 0)
+        (accX emb) eps dim
+      = histOfRuns (rowsOf (fixedThresholdX rnd64 emb eps dim false) true emb.length) emb.length :=
+  seqX_vertline_runs rnd64 rnd64_zero emb eps dim
+
+theorem seq64_diagline_runs (emb : List (List X)) (eps : X) (dim : Nat) :
+    StructC08._diagline_dist_sequential (xOps rnd64) emb.length (List.replicate emb.length 0)
+        (accX emb) eps dim
+      = histOfRuns (diagsOf (fixedThresholdX rnd64 emb eps dim false) emb.length) emb.length :=
+  seqX_diagline_runs rnd64 rnd64_zero emb eps dim
+
+/-! non-vacuity and properness: `1` and `2^-54` are doubles; their difference `1 - 2^-54` is a tie
+between `1 - 2^-53` and `1` and rounds to the even `1`, so with the threshold `1` the pair is
+recurrent exactly but not in binary64 (the inclusion is proper, in the direction proved);
+`1/10` is not a double and is moved; subnormal multiples of `2^-1074` are fixed. -/
+example : IsF64 1 ∧ IsF64 (3 / 2) := ⟨⟨1, 0, by decide, by decide, by simp [Visibility.pow2]⟩,
+  ⟨3, -1, by decide, by decide, by norm_num [Visibility.pow2]⟩⟩
+example : rnd64 (1 - 1 / 2 ^ 54) = 1 ∧ rnd64 (1 - 1 / 2 ^ 53) = 1 - 1 / 2 ^ 53 ∧
+    rnd64 (1 / 10) ≠ 1 / 10 ∧ rnd64 (3 / 2 ^ 1074) = 3 / 2 ^ 1074 ∧ rnd64 (3 / 2 ^ 1075) = 2 / 2 ^ 1074 ∧
+    Similarity.rn53 (3 / 2 ^ 1075) = 3 / 2 ^ 1075 := by decide +kernel
+example : (xOps rnd64).lt (StructC08.metric_supremum (xOps rnd64) 0 1 1
+      (fun a _ => .fin (if a = 0 then 1 else 1 / 2 ^ 54))) (.fin 1) = false ∧
+    (xOps id).lt (StructC08.metric_supremum (xOps id) 0 1 1
+      (fun a _ => .fin (if a = 0 then 1 else 1 / 2 ^ 54))) (.fin 1) = true := by decide +kernel
+
+end Binary64
 
 /-! ## Round 4 — `RecurrencePlot.diagline_dist()` as a whole (Python layer included) -/
 section PyLayer
